@@ -7,6 +7,7 @@ mod c01;
 mod c02;
 mod c03;
 mod c04;
+mod c06;
 mod c08;
 mod c11;
 mod c15;
@@ -146,6 +147,7 @@ fn main() {
         "c02" => c02::run_c02(&mut ctx, replay_lines.as_deref()),
         "c09" => c02::run_c09(&mut ctx, replay_lines.as_deref()),
         "c03" => c03::run(&mut ctx, replay_lines.as_deref()),
+        "c06" => c06::run_c06(&mut ctx, replay_lines.as_deref()),
         "c08" => c08::run(&mut ctx, replay_lines.as_deref()),
         "c11" => c11::run(&mut ctx, replay_lines.as_deref()),
         "c15" => c15::run(&mut ctx, replay_lines.as_deref()),
